@@ -7,6 +7,8 @@ exit 2: harness error
 """
 import argparse
 import os
+
+os.environ.setdefault("TQDM_DISABLE", "1")  # y0 wraps some loops in progress bars
 import sys
 
 HERE = os.path.dirname(os.path.abspath(__file__))
